@@ -354,7 +354,7 @@ func gen(repo string) (map[string]string, error) {
 		dir+"statefulset.go", dir+"deployment.go", dir+"ipam.go", dir+"filter.go", dir+"resync.go", dir+"bind.go",
 		dir+"floatingip_plugin.go", "pkg/ipam/floatingip/ipam_crd.go", "pkg/ipam/floatingip/floatingip.go",
 		"pkg/api/galaxy/constant/constant.go"))
-	b.WriteString("namespace Galaxy.Generated.C03\n\n")
+	b.WriteString("set_option linter.unusedVariables false\nnamespace Galaxy.Generated.C03\n\n")
 	say := func(doc, def string) { fmt.Fprintf(&b, "/-- %s -/\n%s\n\n", doc, def) }
 	fact := func(doc, name string, v bool) { say(doc, fmt.Sprintf("def %s : Bool := %s", name, fg.LeanBool(v))) }
 
